@@ -260,7 +260,8 @@ Inductive aexpr :=
 (* operator codes (assigned by the harness exporter from the Go constants):
    unary: 0 Inc, 1 Dec, >= 100 others.
    binary: 0 Assgn, 1..14 compound assignments, 20 TernQuest, 21 TernColon,
-           22 AndArit, 23 OrArit, >= 100 others (incl. Comma). *)
+           22 AndArit, 23 OrArit, 24 Pow (an ordinary operator for the model; the code is fixed
+           for the class predicate of KF-C04-4), >= 100 others (incl. Comma). *)
 Definition un_incdec (op : N) : bool := op <? 2.
 Definition bin_assign (op : N) : bool := op <? 20.
 Definition OP_QUEST : N := 20.
